@@ -13,7 +13,7 @@ use serde_json::json;
 use std::collections::BTreeMap;
 
 pub fn run_c02(ctx: &Ctx) -> i32 {
-    let n = ctx.tier.pick(8_000u64, 200_000u64);
+    let n = ctx.tier.pick(30_000u64, 400_000u64);
     let mut opts = ObsOpts::structure_only();
     opts.structure = false;
     opts.frame_images = true;
@@ -156,7 +156,7 @@ fn c06_model(rng: &mut Rng, i: u64) -> (Sprite, PaletteProgram, &'static str) {
 }
 
 pub fn run_c06(ctx: &Ctx) -> i32 {
-    let n = ctx.tier.pick(10_000u64, 250_000u64);
+    let n = ctx.tier.pick(60_000u64, 600_000u64);
     let mut opts = ObsOpts::structure_only();
     opts.structure = false;
     opts.cels = true;
